@@ -280,6 +280,36 @@ fn bounds(b: f64, jac: f64) -> BoundsRes {
     }
 }
 
+fn bounds_with(params: SetSketchParams, jac: f64) -> BoundsRes {
+    match guarded(move || params.get_jaccard_bounds(jac)) {
+        Ok((lo, hi)) => BoundsRes::Ok(lo, hi),
+        Err(p) => BoundsRes::Panic(p),
+    }
+}
+
+/// the same parameters obtained in the other public ways: dumped and reloaded, a copy, Default with its own values
+fn other_params(b: f64) -> Vec<(&'static str, SetSketchParams)> {
+    let mut v = Vec::new();
+    let p = SetSketchParams::new(b, 4096, 20., 65534);
+    let dir = std::env::temp_dir().join(format!("verif-c07-{}-{}", std::process::id(), b.to_bits()));
+    let _ = std::fs::create_dir_all(&dir);
+    if p.dump_json(&dir).is_ok() {
+        if let Ok(r) = SetSketchParams::reload_json(&dir) {
+            v.push(("reloaded from its dump", r));
+        }
+    }
+    let _ = std::fs::remove_dir_all(&dir);
+    let c = p;
+    v.push(("a copy", c));
+    let d = SetSketchParams::default();
+    if d.get_b() == b {
+        let mut d2 = d;
+        d2.set_m(4096);
+        v.push(("Default", d2));
+    }
+    v
+}
+
 /// (2) bounds bracket the true Jaccard index
 fn bracket_sweep(ctx: &Ctx) -> (u64, u64, f64) {
     let grid: Vec<f64> = vec![0., 1., 2., 3., 5., 10., 30., 100., 1e3, 1e4, 1e6];
@@ -289,6 +319,8 @@ fn bracket_sweep(ctx: &Ctx) -> (u64, u64, f64) {
     for &b in b_list().iter().filter(|b| **b >= 1.0001) {
         let q = doc_q(b);
         let a = 20.;
+        let others = other_params(b);
+        let mut reported_other = false;
         for &n1 in &grid {
             for &n2 in &grid {
                 for &n12 in &grid {
@@ -303,6 +335,21 @@ fn bracket_sweep(ctx: &Ctx) -> (u64, u64, f64) {
                     admissible += 1;
                     let j = n12 / (n1 + n2 + n12);
                     let p = collision_prob(b, a, q, n1, n2, n12);
+                    if !reported_other {
+                        if let BoundsRes::Ok(lo, hi) = bounds(b, p) {
+                            for (how, op) in &others {
+                                let same = matches!(bounds_with(*op, p), BoundsRes::Ok(l2, h2) if (l2 - lo).abs() <= 1e-12 && (h2 - hi).abs() <= 1e-12);
+                                if !same {
+                                    reported_other = true;
+                                    ctx.violation(
+                                        "bounds-depend-on-how-the-parameters-were-obtained",
+                                        &format!("b={}: get_jaccard_bounds({}) is ({}, {}) on parameters built by new() and {:?} on the same parameters {}", b, p, lo, hi, bounds_with(*op, p), how),
+                                        json!({"kind": "bounds-other-params", "b": b, "jac_bits": format!("{:#x}", p.to_bits())}),
+                                    );
+                                }
+                            }
+                        }
+                    }
                     match bounds(b, p) {
                         BoundsRes::Panic(msg) => {
                             let key = if msg.contains("jinf <= jsup") { "bounds-assert-rounding" } else { "bounds-panic" };
